@@ -156,6 +156,9 @@ func genCase(rt *rapid.T, run *ev.Run) *Case {
 	return nil
 }
 
+// lxOf: lox's in-process table for the case (used only by the known-finding signature).
+func lxOf(c *Case) *loxb.Lox { return loxb.Front1(c.G.Lox()) }
+
 const knownErrSugar = "C09-errsugar-blame"
 const knownBottomUp = "C09-blame-bottom-up-order"
 
@@ -335,9 +338,10 @@ func eval(run *ev.Run, cases []*Case, count bool) ([]verdict, error) {
 				}
 			}
 			if f, d := judge(p, w, r); f != "" {
-				if f == "blame" && run.Known(knownBottomUp) && deliveredLater(r.ErrToks, cfgm.FirstBad(p, oracleInput(w))) {
-					// listed finding: the Error of the first offending token IS delivered, but after Errors of
-					// later tokens, because actions run bottom-up (right-recursive @error productions)
+				if f == "blame" && run.Known(knownBottomUp) && !hasErrSugar(c.G) &&
+					bottomUpSignature(lxOf(c), p, w, r.OK, r.ErrToks, cfgm.FirstBad(p, oracleInput(w))) {
+					// listed finding: detection blames the right token, but Errors are delivered in bottom-up
+					// action order (nested / right-recursive @error productions reduce first)
 					run.KnownHit(knownBottomUp, "Error of the first offending token delivered after Errors of later tokens (bottom-up action order)")
 					continue
 				}
